@@ -124,6 +124,8 @@ SUB_TEMPLATES = [
     ("alias", "uint32_t", ["HexInsnPktBundle *bundle", "uint32_t x"], "{ HEX_REG_ALIAS_LR = x; return HEX_REG_ALIAS_SP; }"),
     ("usr", "uint32_t", ["HexInsnPktBundle *bundle", "uint32_t x"], "{ set_usr_field(bundle, HEX_REG_FIELD_USR_OVF, x); return x; }"),
     ("load", "uint32_t", ["HexInsnPktBundle *bundle", "uint32_t a"], "{ return (uint32_t)mem_load_u32(a); }"),
+    ("boolparam", "int32_t", ["bool b"], "{ return b ? 1 : (b ? 2 : 3); }"),
+    ("twouse", "uint32_t", ["uint32_t a", "uint8_t c"], "{ return (a + c) ^ (a >> (c & 7)); }"),
 ]
 
 
@@ -192,6 +194,16 @@ def template_texts(which):
         t += list(c09.DEAD_ARM_TEMPLATES)
     if which in ("C11", "C10", "C12"):
         t += context_templates() + bool_consumer_templates()
+    if which == "C12":
+        # value-bearing statement-expressions are the class of the listed finding
+        # KF-C12-statement-expression-declaration-emitted-twice: excluded by construction for C12
+        t = [x for x in t if "({ int32_t" not in x]
+    if which == "C11":
+        # sizeof of every operand spelling inside name-deriving consumers (the leak of its operand is C12's listed finding)
+        from . import c07
+        toks = CTX_OPERANDS + [e_ + n_ for e_ in c07.EXPLICIT for n_ in ("", "_NEW")] + ["HEX_REG_ALIAS_LR", "HEX_REG_ALIAS_UTIMER"]
+        t += [c.replace("@", tok) for tok in toks for c in ("{ RdV = (int32_t) mem_load_s32(sizeof(@)); }", "{ JUMP(sizeof(@)); }",
+                                                            "{ mem_store_u32(RtV, sizeof(@)); }")]
     return t
 
 
